@@ -5,6 +5,7 @@ package main
 
 import (
 	"fmt"
+	"regexp"
 	"go/types"
 	"sort"
 	"strings"
@@ -69,6 +70,25 @@ type VC struct {
 	inlined  map[string]bool
 	usedContracts map[string]bool
 	oblCount map[string]int
+	condAxioms []condAxiom
+}
+
+type condAxiom struct {
+	syms []string
+	text string
+	note string
+}
+
+var gfRe = regexp.MustCompile(`gf_[A-Za-z0-9_]+`)
+var strFnRe = regexp.MustCompile(`str_(cat|len|at|sub|lt)|big_str|int_str`)
+
+// AddCondAxiom registers an axiom that is added to a query only when the query mentions one of its spec functions.
+func (vc *VC) AddCondAxiom(term, note string) {
+	syms := gfRe.FindAllString(term, -1)
+	if len(syms) == 0 {
+		syms = strFnRe.FindAllString(term, -1)
+	}
+	vc.condAxioms = append(vc.condAxioms, condAxiom{syms: syms, text: "(assert " + term + ")", note: note})
 }
 
 func NewVC(reg *Registry) *VC {
@@ -165,6 +185,20 @@ func (vc *VC) Query(prelude string, o *Obligation) string {
 		if strings.Contains(bs, sa[0]) || strings.Contains(o.Goal, sa[0]) {
 			b.WriteString(sa[1])
 			b.WriteByte('\n')
+		}
+	}
+	for _, ca := range vc.condAxioms {
+		use := len(ca.syms) == 0
+		for _, sy := range ca.syms {
+			if strings.Contains(bs, sy) || strings.Contains(o.Goal, sy) {
+				use = true
+				break
+			}
+		}
+		if use {
+			b.WriteString(ca.text)
+			b.WriteByte('\n')
+			vc.trusted[ca.note] = true
 		}
 	}
 	b.WriteString(bs)
